@@ -57,6 +57,12 @@ def fmt_case(c):
         lines.append("freeze %d %d" % tuple(c["freeze"]))
     if c.get("elem"):
         lines.append("elem %s" % c["elem"])
+    if c.get("c0") is not None:
+        lines.append("c0 %d" % c["c0"])
+    if c.get("multi"):
+        lines.append("multi %d" % c["multi"])
+        for t, p in enumerate(c["mprogs"]):
+            lines.append("mprog %d %s" % (t, " ".join(p)))
     lines.append("end")
     return "\n".join(lines) + "\n"
 
@@ -266,6 +272,45 @@ def gen_boundary(r, cid, mode):
     progs = [p]
     fin = r.weighted([("drop", 1), ("seq:%d" % r.choice([0, 2, 9]), 2)])
     return dict(id=cid, env=env, progs=progs, final=fin, seed=r.below(1 << 30), gen="solo", sched=None)
+
+
+def gen_multi(r, cid):
+    """C19: several iterators over one collection (fresh ones and clones made at arbitrary points), driven by 1-3 threads"""
+    if r.chance(2, 3):
+        ln = r.choice([0, 1, 2, 3, 5, 8])
+        env = mk_env("slice", ln)
+    else:
+        st = r.choice([0, 3, 1000])
+        ln = r.choice([0, 1, 2, 4, 7])
+        env = mk_env("range", 0, start=st, end=st + ln)
+    nt = r.weighted([(1, 2), (2, 5), (3, 3)])
+    fresh = r.weighted([(1, 3), (2, 2)])
+    nslots = fresh
+    mprogs = []
+    for t in range(nt):
+        avail = list(range(fresh))
+        p = []
+        for _ in range(r.weighted([(2, 2), (3, 3), (5, 3), (7, 1)])):
+            j = r.choice(avail)
+            f = r.weighted([("next", 5), ("chunk", 3), ("loop", 1), ("skip", 1), ("len", 2), ("clone", 3)])
+            if f == "clone":
+                p.append("@%d:clone:%d" % (j, nslots))
+                avail.append(nslots)
+                nslots += 1
+            elif f == "next":
+                p.append("@%d:next:%s" % (j, r.choice(["val", "idval", "values", "idsvalues"])))
+            elif f == "chunk":
+                n = r.choice([1, 2, 3, 9])
+                p.append("@%d:chunk:%d:%d" % (j, n, r.below(n + 1)))
+            elif f == "loop":
+                p.append("@%d:loop:%s:%d:-" % (j, r.choice(["foreach", "enum", "fold"]), r.choice([1, 2, 3])))
+            elif f == "skip":
+                p.append("@%d:skip" % j)
+            else:
+                p.append("@%d:%s" % (j, r.choice(["len", "more"])))
+        mprogs.append(p)
+    return dict(id=cid, env=env, progs=[[] for _ in range(nt)], final="drop", seed=r.below(1 << 30), gen="random", sched=None,
+                multi=fresh, mprogs=mprogs, nslots=nslots)
 
 
 # ---------------------------------------------------------------- streams per property
